@@ -121,9 +121,9 @@ func (self *Transformer) expressionVariants(node ast.AnalyzedExpression, needsTo
 		// TODO: load then store in another variable
 		variants = append(variants, node)
 	case ast.NullLiteralExpressionKind:
-		panic("TODO")
+		variants = append(variants, node)
 	case ast.NoneLiteralExpressionKind:
-		panic("TODO")
+		variants = append(variants, node)
 	case ast.RangeLiteralExpressionKind:
 		// TODO: also add a block in which there are two variables (lower upper)
 		variants = append(variants, node)
@@ -131,7 +131,7 @@ func (self *Transformer) expressionVariants(node ast.AnalyzedExpression, needsTo
 		// TODO: this can be extremely obfuscated.
 		variants = append(variants, node)
 	case ast.AnyObjectLiteralExpressionKind:
-		panic("TODO")
+		variants = append(variants, node)
 	case ast.ObjectLiteralExpressionKind:
 		// TODO: this can be obfuscated
 		// For instance: swap around the order
